@@ -362,6 +362,8 @@ func NewTypeConverter(typ reflect.Type) (TypeConverter, error) {
 	if typ == nil {
 		return nil, errz.TypeErrorf("type error: no type converter for untyped nil")
 	}
+	verifLock(goTypeMutex, 0)
+	defer verifLock(goTypeMutex, 1)
 	goTypeMutex.Lock()
 	defer goTypeMutex.Unlock()
 
@@ -370,6 +372,7 @@ func NewTypeConverter(typ reflect.Type) (TypeConverter, error) {
 
 // The caller must hold the goTypeMutex lock.
 func createTypeConverter(typ reflect.Type) (TypeConverter, error) {
+	verifAccess(&typeConverters, "typeConverters", false)
 	if conv, ok := typeConverters[typ]; ok {
 		return conv, nil
 	}
@@ -377,6 +380,7 @@ func createTypeConverter(typ reflect.Type) (TypeConverter, error) {
 	if err != nil {
 		return nil, err
 	}
+	verifAccess(&typeConverters, "typeConverters", true)
 	typeConverters[typ] = conv
 	return conv, nil
 }
@@ -384,9 +388,12 @@ func createTypeConverter(typ reflect.Type) (TypeConverter, error) {
 // SetTypeConverter sets a TypeConverter for the given Go type. This is not
 // typically used, since the default converters should typically be sufficient.
 func SetTypeConverter(typ reflect.Type, conv TypeConverter) {
+	verifLock(goTypeMutex, 0)
+	defer verifLock(goTypeMutex, 1)
 	goTypeMutex.Lock()
 	defer goTypeMutex.Unlock()
 
+	verifAccess(&typeConverters, "typeConverters", true)
 	typeConverters[typ] = conv
 }
 
@@ -403,6 +410,7 @@ func getTypeConverter(typ reflect.Type) (TypeConverter, error) {
 		}
 		return conv, nil
 	}
+	verifAccess(&typeConverters, "typeConverters", false)
 	if conv, ok := typeConverters[typ]; ok {
 		return conv, nil
 	}
